@@ -70,6 +70,9 @@ Proof.
   induction rs as [|[d [l|]] rs IH]; cbn; [reflexivity| |exact IH]. rewrite IH. reflexivity.
 Qed.
 
+Lemma singles_tl (l : fired) : concat (map (@tl (Z * Z)) (map (fun x => [x]) l)) = [].
+Proof. induction l as [|x l IH]; [reflexivity|exact IH]. Qed.
+
 (* one step: what was waiting plus what the wheel fired = what was delivered plus what waits *)
 Lemma gstep_conserves s o :
   Permutation (snd (fst (gstep s o)) ++ undelivered (fst (fst (gstep s o))))
@@ -87,7 +90,8 @@ Proof.
       - rewrite app_nil_r, Hsp. apply Permutation_app_swap_app.
       - rewrite !app_nil_r in *. rewrite Hsp. apply Permutation_app_comm. }
     destruct a; try (destruct (run_batch (dreleased s) f) as [dd rest]; cbn [fst snd]; exact Hgen).
-    cbn [fst snd]. unfold undelivered. cbn [dflight]. apply Permutation_app_comm.
+    cbn [fst snd]. unfold undelivered. cbn [dflight]. rewrite map_app, concat_app, singles_tl, app_nil_r.
+    apply Permutation_app_comm.
   - cbn [fst snd]. rewrite app_nil_r. unfold undelivered. cbn [dflight].
     rewrite und_flat. rewrite !map_map.
     set (R := resume hold (v :: dreleased s) v).
@@ -159,7 +163,10 @@ Proof.
       destruct (run_batch (dreleased s) f) as [d rest]. cbn [snd] in Hb.
       unfold flight_ok. cbn [dflight dreleased]. apply Forall_app. split; [exact Hs|].
       destruct rest as [l|]; cbn; [constructor; [apply Hb; reflexivity|constructor]|constructor]. }
-    destruct a; try (destruct (run_batch (dreleased s) f); exact Hgen). exact Hs.
+    destruct a; try (destruct (run_batch (dreleased s) f); exact Hgen).
+    unfold flight_ok. cbn [fst dflight dreleased]. apply Forall_app. split; [exact Hs|].
+    apply Forall_forall. intros b Hb. apply in_map_iff in Hb. destruct Hb as (x & <- & Hx).
+    apply filter_In in Hx. exists x, []. split; [reflexivity|apply Hx].
   - cbn [fst]. unfold flight_ok in *. cbn [dflight dreleased].
     induction (dflight s) as [|b bs IH]; [constructor|].
     inversion Hs as [|? ? Hb Hbs]; subst. cbn [map flat_map]. apply Forall_app. split; [|apply IH, Hbs].
@@ -224,6 +231,60 @@ Proof.
   exists (undelivered (gfinal (mkD w [] []) ops)).
   pose proof (delivery_conserves ops (mkD w [] [])) as Hc. exact Hc.
 Qed.
+
+(* ---- re-entrancy: callbacks that call back into the wheel ---- *)
+Variable react : Z * Z -> option aop.
+Notation react_all := (react_all stepf hold react).
+Notation rstep := (rstep stepf hold react).
+Notation rrun := (rrun stepf hold react).
+Notation effective := (effective stepf hold react).
+
+Lemma grun_app a b s : grun s (a ++ b) = grun s a ++ grun (gfinal s a) b.
+Proof.
+  revert s. induction a as [|o a IH]; intros s; [reflexivity|].
+  cbn [app Deliver.grun Deliver.gfinal]. destruct (gstep s o) as [[s' d] r]. cbn [fst]. rewrite IH. reflexivity.
+Qed.
+
+Lemma react_all_grun d : forall s,
+  gfinal s (map GCall (snd (react_all s d))) = fst (fst (react_all s d)) /\
+  concat (map fst (grun s (map GCall (snd (react_all s d))))) = snd (fst (react_all s d)).
+Proof.
+  induction d as [|x d IH]; intros s; [split; reflexivity|].
+  cbn [Deliver.react_all]. destruct (react x) as [a|]; [|apply IH].
+  destruct (gstep s (GCall a)) as [[s1 d1] r1] eqn:E1.
+  specialize (IH s1). destruct (react_all s1 d) as [[s2 d2] e]. cbn [fst snd] in *.
+  cbn [map Deliver.gfinal Deliver.grun]. rewrite E1. cbn [fst snd map concat].
+  destruct IH as [I1 I2]. split; [exact I1|]. rewrite I2. reflexivity.
+Qed.
+
+Lemma rstep_grun s o :
+  gfinal s (o :: map GCall (snd (rstep s o))) = fst (fst (fst (rstep s o))) /\
+  concat (map fst (grun s (o :: map GCall (snd (rstep s o))))) = snd (fst (fst (rstep s o))).
+Proof.
+  unfold Deliver.rstep. cbn [Deliver.gfinal Deliver.grun].
+  destruct (gstep s o) as [[s1 d] r]. cbn [fst snd].
+  destruct (is_drain o).
+  - cbn. rewrite app_nil_r. split; reflexivity.
+  - pose proof (react_all_grun d s1) as [H1 H2].
+    destruct (react_all s1 d) as [[s2 d2] e]. cbn [fst snd map concat] in *.
+    split; [exact H1|]. rewrite H2. reflexivity.
+Qed.
+
+Theorem rrun_is_grun_of_effective ops : forall s,
+  concat (map (fun x => fst (fst x)) (rrun s ops)) = concat (map fst (grun s (effective s ops))).
+Proof.
+  induction ops as [|o ops IH]; intros s; [reflexivity|].
+  cbn [Deliver.rrun Deliver.effective]. pose proof (rstep_grun s o) as [H1 H2].
+  destruct (rstep s o) as [[[s' d] r] e]. cbn [fst snd map concat] in *.
+  change (o :: map GCall e ++ effective s' ops) with ((o :: map GCall e) ++ effective s' ops).
+  rewrite grun_app, map_app, concat_app, H1, H2, IH. reflexivity.
+Qed.
+
+(* with callbacks calling back into the wheel: still nothing lost, nothing doubled *)
+Theorem reentrant_conserves ops s :
+  Permutation (concat (map (fun x => fst (fst x)) (rrun s ops)) ++ undelivered (gfinal s (effective s ops)))
+              (undelivered s ++ concat (gfired stepf (dwheel s) (effective s ops))).
+Proof. rewrite rrun_is_grun_of_effective. apply delivery_conserves. Qed.
 
 End DeliverProofs.
 
